@@ -81,6 +81,11 @@ fn trim_case(v: &Value) -> Value {
 pub fn death_signature(stderr: &str, status: &std::process::ExitStatus, case: &Value) -> (String, Value) {
     use std::os::unix::process::ExitStatusExt;
     let signal = status.signal();
+    // only what the worker printed since it started the case that killed it
+    let stderr = match stderr.rfind("GV-CASE-START") {
+        Some(i) => &stderr[i..],
+        None => stderr,
+    };
     let mut kind = "crash".to_string();
     let mut detail = String::new();
     let mut location = String::new();
@@ -106,12 +111,16 @@ pub fn death_signature(stderr: &str, status: &std::process::ExitStatus, case: &V
         return (format!("{} (first repo frame {})", detail, location), sig);
     }
     let mut panic_msg = String::new();
+    let mut first_repo_panic: Option<(String, String)> = None;
     for l in stderr.lines() {
         if let Some(rest) = l.strip_prefix("PANIC at ") {
             // the last panic printed is the one that killed the process (earlier ones were caught)
             let (loc, msg) = rest.split_once(": ").unwrap_or((rest, ""));
             location = crate::worker::strip_repo(loc);
             panic_msg = msg.to_string();
+            if first_repo_panic.is_none() && loc.starts_with("/repo/") {
+                first_repo_panic = Some((location.clone(), panic_msg.clone()));
+            }
         }
         if l.contains("has overflowed its stack") {
             kind = "native-stack-overflow".to_string();
@@ -121,6 +130,14 @@ pub fn death_signature(stderr: &str, status: &std::process::ExitStatus, case: &V
         }
         if l.contains("memory allocation of") {
             kind = "alloc-failure".to_string();
+        }
+    }
+    // a panic that cannot unwind (or a poisoned lock) is the consequence; the first panic inside
+    // the repository during this case is the cause
+    if kind == "abort-nounwind-panic" || panic_msg.contains("PoisonError") {
+        if let Some((l, m)) = first_repo_panic {
+            location = l;
+            panic_msg = m;
         }
     }
     detail.push_str(&format!("worker died: signal={:?} code={:?} kind={}", signal, status.code(), kind));
